@@ -182,8 +182,18 @@ _loaded: dict[str, types.ModuleType] = {}
 _RE_MODULE = None
 
 
+_UNICODEDATA = None
+
+
 def _stub_for(name):
-    global _RE_MODULE
+    global _RE_MODULE, _UNICODEDATA
+    if name == "unicodedata":
+        if _UNICODEDATA is None:
+            import unicodedata
+            _UNICODEDATA = types.ModuleType("unicodedata")
+            _UNICODEDATA.__dict__.update({k: getattr(unicodedata, k) for k in dir(unicodedata) if not k.startswith("__")})
+            _UNICODEDATA.normalize = sc.sym_normalize
+        return _UNICODEDATA
     if name == "re":
         if _RE_MODULE is None:
             _RE_MODULE = rx.make_re_module()
